@@ -383,6 +383,88 @@ func streamC18(c *Ctx) {
 			c.Sample(line)
 		}
 	}
+	// nil containers: a map or slice that was never initialised - on its own, in a struct field, behind a pointer, as a map
+	// value - normalises to what the empty one normalises to, and the result is a real (non-nil) container: a dotted Set
+	// below it must work as it does below an empty map
+	{
+		type holder struct {
+			Attrs map[string]string `clover:"attrs"`
+			List  []int             `clover:"list"`
+		}
+		var nm map[string]int
+		var ns []string
+		cases := []struct {
+			name      string
+			nilV, emp interface{}
+		}{
+			{"nil map", nm, map[string]int{}},
+			{"nil slice", ns, []string{}},
+			{"struct with nil map and slice", holder{}, holder{Attrs: map[string]string{}, List: []int{}}},
+			{"pointer to struct with nil fields", &holder{}, &holder{Attrs: map[string]string{}, List: []int{}}},
+			{"nil map as a map value", map[string]interface{}{"m": nm}, map[string]interface{}{"m": map[string]int{}}},
+		}
+		var typedNil func(v interface{}) bool
+		typedNil = func(v interface{}) bool {
+			switch x := v.(type) {
+			case map[string]interface{}:
+				if x == nil {
+					return true
+				}
+				for _, e := range x {
+					if typedNil(e) {
+						return true
+					}
+				}
+			case []interface{}:
+				if x == nil {
+					return true
+				}
+				for _, e := range x {
+					if typedNil(e) {
+						return true
+					}
+				}
+			}
+			return false
+		}
+		for _, cs := range cases {
+			c.Evals++
+			rn, en, pn := safeNormalize(cs.nilV)
+			re, ee, _ := safeNormalize(cs.emp)
+			bad := ""
+			switch {
+			case pn != "":
+				bad = "Normalize panicked: " + pn
+			case (en != nil) != (ee != nil) || (en == nil && canonValue(rn) != canonValue(re)):
+				bad = "Normalize of the nil container differs from Normalize of the empty one: " + canonValue(rn) + " / " + canonValue(re)
+			case en == nil && typedNil(rn):
+				bad = "the result holds a nil map or slice (a container that cannot be written into)"
+			}
+			if bad == "" && en == nil {
+				// a document holding it: a dotted Set below the (empty) map must create the entry, not panic
+				func() {
+					defer func() {
+						if r := recover(); r != nil {
+							bad = fmt.Sprint("Set below the normalised container panicked: ", r)
+						}
+					}()
+					doc := d.NewDocument()
+					doc.Set("h", cs.nilV)
+					for _, p := range []string{"h.k", "h.attrs.color", "h.m.z"} {
+						doc.Set(p, int64(1))
+					}
+					if _, isMap := doc.Get("h").(map[string]interface{}); isMap && !doc.Has("h.k") {
+						bad = "Set of h.k below the normalised map did not create the entry"
+					}
+				}()
+			}
+			if bad != "" {
+				c.Violation(&Replay{Stream: "norm", Case: []interface{}{J{"k": "nil-container", "case": cs.name}}, Actual: []string{bad}, Note: "a nil Go map / slice is not normalised like the empty one"})
+				return
+			}
+			c.Count("nil-container")
+		}
+	}
 	// binary data: a byte SLICE - plain, of a named type, behind a pointer, inside a struct or a map - is kept as a []byte
 	{
 		type blob []byte
